@@ -102,6 +102,16 @@ func respell(rng *mrand.Rand, m *dns.Message) []string {
 		}
 		return ip
 	}
+	// the mirror image: an IPv4-mapped IPv6 address (::ffff:a.b.c.d) held in net.IP's 4-byte form, which is what
+	// To4() and many address-handling helpers return for it. It is the same address; an AAAA record and an
+	// ipv6hint carry 16 octets whatever the slice length.
+	v6 := func(ip net.IP) net.IP {
+		if ip4 := ip.To4(); len(ip) == 16 && ip4 != nil && rng.IntN(2) == 0 {
+			what = append(what, "mapped-ip4:"+ip.String())
+			return ip4
+		}
+		return ip
+	}
 	for _, sec := range [][]dns.RR{m.Answer, m.Authority, m.Additional} {
 		for j := range sec {
 			rr := &sec[j]
@@ -113,12 +123,18 @@ func respell(rng *mrand.Rand, m *dns.Message) []string {
 				if rr.Type == 1 {
 					rr.Data = v4(d)
 				}
+				if rr.Type == 28 {
+					rr.Data = v6(d)
+				}
 			case string:
 				rr.Data = dot(d)
 			case dns.HTTPS:
 				d.Target = dot(d.Target)
 				for k := range d.IPv4Hint {
 					d.IPv4Hint[k] = v4(d.IPv4Hint[k])
+				}
+				for k := range d.IPv6Hint {
+					d.IPv6Hint[k] = v6(d.IPv6Hint[k])
 				}
 				rr.Data = d
 			}
